@@ -8,7 +8,7 @@
                                        ActiveStageId = 1 + index of the earliest such stage
                                        (0 if none). *)
 From LP Require Export SaleCorr.
-From LP Require Import Num Pay Sg1 Bank MinterVending.
+From LP Require Import Num Pay Sg1 Bank MinterVending MinterOpen SaleOeCorr.
 
 Record wprobe := mkProbe {
   pr_tiered : bool;
@@ -37,7 +37,13 @@ Definition probe_ok (p : wprobe) : bool :=
   Bool.eqb (window_active (pr_tiered p) (pr_windows p) (pr_now p)) (pr_active p) &&
   (if pr_tiered p then stage_of (pr_windows p) (pr_now p) 1 =? pr_stage p else true).
 
-Record c04_case := mkC04 { cc_sale : scase; cc_probes : list wprobe }.
+(* a vending-family history or an open-edition history, each with its probes *)
+Inductive c04_case :=
+| mkC04 (sale : scase) (probes : list wprobe)
+| mkC04O (oe : oecase) (probes : list wprobe).
 
 Definition c04_check (c : c04_case) : bool :=
-  sale_check (cc_sale c) && forallb probe_ok (cc_probes c).
+  match c with
+  | mkC04 sale probes => sale_check sale && forallb probe_ok probes
+  | mkC04O oe probes => sale_oe_check oe && forallb probe_ok probes
+  end.
